@@ -994,7 +994,9 @@ __CPROVER_requires(__CPROVER_rw_ok(list, sizeof(*list)) && list->item_size > 0 &
 __CPROVER_requires(list->data == NULL ? list->current_size == 0 : __CPROVER_rw_ok(list->data, list->current_size))
 __CPROVER_assigns(list->length, list->data, list->current_size)
 __CPROVER_assigns(list->data != NULL : __CPROVER_object_whole(list->data))
-__CPROVER_frees(list->alloc != NULL : list->data)
+/* no frees clause: a frees clause of a contract replaced inside a loop that has a loop contract sends CBMC 6.11's symex into an
+ * unbounded unwinding of __CPROVER_contracts_write_set_deallocate_freeable; the old storage of a grown list therefore stays
+ * allocated in the model (the caller never touches the storage, so no use-after-free can hide behind this) */
 __CPROVER_ensures(RET == AWS_OP_SUCCESS || RET == AWS_OP_ERR)
 __CPROVER_ensures(list->length == OLD(list->length) + (RET == AWS_OP_SUCCESS ? 1 : 0))
 __CPROVER_ensures(list->current_size >= OLD(list->current_size))
@@ -1086,6 +1088,27 @@ READ_UNSIGNED_CONTRACT(10)
 ;
 int aws_byte_cursor_utf8_parse_u64_hex(struct aws_byte_cursor cursor, uint64_t *dst)
 READ_UNSIGNED_CONTRACT(16)
+;
+
+/* appends one 0 byte, growing when full (aws_byte_buf_append_dynamic with the file-static cursor "\0"; the harness has
+ * to give that static its initial value because DFCC makes every mutable static nondeterministic) */
+int aws_byte_buf_append_null_terminator(struct aws_byte_buf *buf)
+__CPROVER_requires(BUF_OK(buf) && buf->allocator != NULL)
+REQ_WITNESS_BUF(buf)
+__CPROVER_requires(g_on ==> (g_j < 1 ==> g_src == 0))
+__CPROVER_assigns(buf->len < SIZE_MAX : buf->len, buf->buffer, buf->capacity)
+__CPROVER_assigns(buf->len < buf->capacity : __CPROVER_object_upto(buf->buffer + buf->len, 1))
+__CPROVER_assigns(buf->len < SIZE_MAX && buf->len == buf->capacity && buf->capacity > 0 : __CPROVER_object_upto(buf->buffer, buf->capacity))
+__CPROVER_frees(buf->len < SIZE_MAX && buf->len == buf->capacity : buf->buffer)
+__CPROVER_ensures(RET == AWS_OP_SUCCESS || RET == AWS_OP_ERR)
+__CPROVER_ensures((RET == AWS_OP_SUCCESS) == (OLD(buf->len) < SIZE_MAX))
+__CPROVER_ensures(RET != AWS_OP_SUCCESS ==> buf->len == OLD(buf->len) && buf->capacity == OLD(buf->capacity) && PEQ(buf->buffer, OLD(buf->buffer)))
+__CPROVER_ensures(RET == AWS_OP_SUCCESS && OLD(buf->len) < OLD(buf->capacity) ==> buf->capacity == OLD(buf->capacity) && PEQ(buf->buffer, OLD(buf->buffer)))
+__CPROVER_ensures(RET == AWS_OP_SUCCESS && OLD(buf->len) == OLD(buf->capacity) ==> buf->capacity > OLD(buf->capacity) && __CPROVER_is_fresh(buf->buffer, buf->capacity))
+__CPROVER_ensures(buf->allocator == OLD(buf->allocator))
+__CPROVER_ensures(RET == AWS_OP_SUCCESS ==> buf->len == OLD(buf->len) + 1 && buf->len <= buf->capacity)
+__CPROVER_ensures(g_on && RET == AWS_OP_SUCCESS && g_j < 1 ==> buf->buffer[OLD(buf->len) + g_j] == 0)
+__CPROVER_ensures(g_on && RET == AWS_OP_SUCCESS && g_k < OLD(buf->len) ==> buf->buffer[g_k] == g_old)
 ;
 
 #endif
